@@ -108,7 +108,9 @@ class Spec(object):
         return "rejection_expected" in res.flags and "admitted" in res.flags
 
     def families(self, tier):
-        return focused(tier)
+        from .. import universal
+        # documented exception: pre-emptive re-routing ignores capacities
+        return focused(tier) + universal.subset(tier, ["cap", "syscap"], exclude=["reroute"])
 
     def explicit_families(self, tier):
         out = [single("E c=1 cap=1", "E", c=1, K=None, T=BIG, srv=SRV2, nodekw={"cap": 1}, features=["explicit", "capacity"])]
